@@ -175,7 +175,8 @@ ClearRow(R, o, F) ==   \* R = [S, fired]
 
 RowStep(R, e, F) ==
   LET S == R.S IN
-  CASE e.k = "ins" /\ (~e.x \/ "failed-applied" \in F)
+  CASE e.k = "skip" -> R
+    [] e.k = "ins" /\ (~e.x \/ "failed-applied" \in F)
          -> [R EXCEPT !.S.fill = @ \cup {e.o}, !.S.live = @ \cup {e.o}]
     [] e.k = "del" /\ (e.o \in S.live \/ "dead-delete" \in F)
          -> ClearRow([R EXCEPT !.S.fill = @ \ {e.o}, !.S.live = @ \ {e.o}], e.o, F)
@@ -268,7 +269,7 @@ FoldCol(desc, cur0, ops) ==     \* cur = <<has, v>>
            cur0, ops)
 
 LiveAfter(was0, ops) ==         \* <<live, touched>>
-  FoldLeft(LAMBDA was, e : IF e.x THEN was ELSE IF e.k = "ins" THEN <<TRUE, TRUE>> ELSE IF was[1] THEN <<FALSE, TRUE>> ELSE was,
+  FoldLeft(LAMBDA was, e : IF e.x \/ e.k = "skip" THEN was ELSE IF e.k = "ins" THEN <<TRUE, TRUE>> ELSE IF was[1] THEN <<FALSE, TRUE>> ELSE was,
            was0, ops)
 
 GhostBlock(S, bufs, b) ==
@@ -291,7 +292,11 @@ ApplyBlockR(S, bufs, b, id, F, runs) ==
       noFire == [n \in DOMAIN S.tg |-> <<>>]
       R1    == RowPass([S |-> S0, fired |-> noFire], OpsOfBlock(BufOps(bufs, "row"), b), F)
       names == SetToSeq({n \in DOMAIN bufs : n # "row" /\ n \in DOMAIN S.reg})
-  IN ColsPass([S |-> R1.S, fired |-> R1.fired, bufs |-> bufs], names, b, F)
+      \* markers of an insert whose callback failed are not part of the commit (as built they are, and are emitted)
+      bufs1 == IF "row" \in DOMAIN bufs /\ "failed-applied" \notin F
+               THEN [bufs EXCEPT !["row"] = [i \in DOMAIN @ |-> IF @[i].x /\ BlockOf(@[i].o) = b THEN [@[i] EXCEPT !.k = "skip"] ELSE @[i]]]
+               ELSE bufs
+  IN ColsPass([S |-> R1.S, fired |-> R1.fired, bufs |-> bufs1], names, b, F)
 ApplyBlock(S, bufs, b, id, F) == ApplyBlockR(S, bufs, b, id, F, {})
 
 DevFlag == [ d \in {"D-dead-delete", "D-write-dead-row", "D-failed-insert-applied",
@@ -393,7 +398,9 @@ Delete(t, o) ==
 \* the callback returned an error
 Rollback(t) ==
   /\ txn[t].pc = "body"
-  /\ st' = [st EXCEPT ![txn[t].c].fill = @ \ txn[t].reserved]
+  \* (a reserved offset is never a live row unless a catalogued deviation has already made two holders collide;
+  \*  the code clears the offset in either case)
+  /\ st' = [st EXCEPT ![txn[t].c].fill = @ \ txn[t].reserved, ![txn[t].c].live = @ \ txn[t].reserved]
   /\ txn' = [txn EXCEPT ![t] = [IdleTxn EXCEPT !.pc = "done", !.c = txn[t].c]]
   /\ UNCHANGED <<used, files, dev>>
 
@@ -542,7 +549,7 @@ ReplayBegin(t, c, cm, ri) ==
 Occupied(S) == S.fill \cup UNION {{x[2]} : x \in S.filler}
 BlockRuns(S, b) == {<<Clip(x[1], x[2], b)[1], Clip(x[1], x[2], b)[2]>> : x \in {x \in S.filler : BlockOf(x[1]) <= b /\ b <= BlockOf(x[2])}}
 BlockImage(S, b, rows) ==
-  [lastId |-> S.lastId[b + 1], rows |-> {o \in rows : BlockOf(o) = b}, runs |-> BlockRuns(S, b),
+  [lastId |-> Grow(S, b).lastId[b + 1], rows |-> {o \in rows : BlockOf(o) = b}, runs |-> BlockRuns(S, b),
    cols |-> [n \in DOMAIN S.reg |-> [o \in {o \in S.has[n] : BlockOf(o) = b} |->
                                        IF S.reg[n].k = "bool" THEN TRUE ELSE S.data[n][o]]]]
 
@@ -561,7 +568,8 @@ SnapBusy(t, c) ==
 \* collection whose rows have all been deleted may still announce its first (empty) block
 SnapBlocksChoices(S) ==
   LET cap(n) == IF n < NBlocks(S) THEN n ELSE NBlocks(S) IN
-  IF Occupied(S) = {} THEN {0, cap(1)} ELSE {cap(BlockOf(MaxOf(Occupied(S))) + 1)}
+  \* (whether an empty collection has ever grown its first block is not tracked: restoring an empty block grows it)
+  IF Occupied(S) = {} THEN {0, 1} ELSE {cap(BlockOf(MaxOf(Occupied(S))) + 1)}
 SnapHeader(t) ==
   /\ txn[t].pc = "snap.open"
   /\ \E nb \in SnapBlocksChoices(Coll(t)) :
